@@ -298,7 +298,7 @@ func (r *vRun) jsonChecks(sg *vSignal, m *vMsg, v reflect.Value, pb []byte) {
 	} else if err2 != nil || !bytes.Equal(pb2, pb) {
 		// nil []byte inside a oneof: JSON gives []byte{} back, which protobuf then DOES emit
 		if info.nilinner > 0 {
-			r.out.Oracle("json-proto-agree", term, fmt.Sprintf("known:empty-bytes %s: JSON turns a Bytes value holding nil into an empty one, protobuf drops it", sg.name))
+			r.out.Oracle("json-proto-agree", term, fmt.Sprintf("%s: JSON turns a Bytes value holding nil into an empty one, protobuf drops it — the public API must never build one", sg.name))
 		} else {
 			r.out.Oracle("json-proto-agree", term, fmt.Sprintf("%s: Marshal(UnmarshalJSON(MarshalJSON(v))) != Marshal(v) although the values agree field by field (err=%v)", sg.name, err2))
 		}
@@ -441,7 +441,7 @@ func (r *vRun) jsonResponseChecks(sg *vSignal, m *vMsg, v reflect.Value, api vRe
 			return
 		}
 		n2, m2 := sg.respGet(a2)
-		if parsed, perr := vParseOrdered(doc); perr == nil {
+		if parsed, perr := vParseOrdered(doc); perr == nil && (what == "as marshalled" || what == "all-alternate-forms") {
 			w := reflect.New(m.typ).Elem()
 			w.Field(0).Field(0).SetInt(n2)
 			w.Field(0).Field(1).SetString(m2)
@@ -491,8 +491,6 @@ var vJSONJunk = []string{`null`, `{}`, `[]`, `""`, `0`, `{"resourceLogs":null}`,
 func (r *vRun) jsonByteCases() {
 	n := vBudget(400, 30)
 	rng := r.rng
-	// one document with a string that is not valid UTF-8, on every run (known finding C08-JSON-INVALIDUTF8)
-	r.jsonDecodeCase(r.sigs[0], []byte("{\"resourceLogs\":[{\"schemaUrl\":\"a\xffb\"}]}"), "handwritten")
 	for i := 0; i < n && len(r.jpool) > 0; i++ {
 		d := r.jpool[rng.Intn(len(r.jpool))]
 		sg := d.sg
@@ -561,6 +559,9 @@ func (r *vRun) jsonDecodeCase(sg *vSignal, c []byte, what string) {
 		return
 	}
 	r.hist["jsondecode_accepted_"+what]++
+	if !utf8.Valid(c) {
+		r.out.Oracle("json-utf8", term, fmt.Sprintf("%s: a document that is not valid UTF-8 is accepted (every JSONUnmarshaler must call json.ValidateUTF8 first)", what))
+	}
 	var j1, j2 []byte
 	var e1, e2, e3, e4 error
 	var y, z interface{}
@@ -591,10 +592,7 @@ func (r *vRun) jsonDecodeCase(sg *vSignal, c []byte, what string) {
 			r.s.diffAll(m, r.s.tree(m, reflect.ValueOf(y).Elem()), r.s.tree(m, reflect.ValueOf(z).Elem()), &d)
 		}
 		if len(d) == 0 {
-			if e3 == nil && !utf8.Valid(c) && vOnlyReplacementCharDiffers(j1, j2) {
-				r.hist["jsondecode_invalid_utf8_accepted"]++
-				r.out.Oracle("json-fixpoint", term, fmt.Sprintf("known:invalid-utf8 %s: the document is not valid UTF-8 but decodes; the string comes back with U+FFFD, written escaped the first time and literally the second: %s", what, vFirstDiff(j1, j2)))
-			} else {
+			{
 				r.out.Oracle("json-fixpoint", term, fmt.Sprintf("%s: re-encoding a decoded document is not a fixed point (err=%v): %s", what, e3, vFirstDiff(j1, j2)))
 			}
 		}
@@ -628,10 +626,4 @@ func vFirstDiff(a, b []byte) string {
 		hb = len(b)
 	}
 	return fmt.Sprintf("first difference at offset %d: %q vs %q", i, a[lo:ha], b[lo:hb])
-}
-
-// j1 and j2 are equal once every escaped \ufffd of j1 is written as the literal character
-func vOnlyReplacementCharDiffers(j1, j2 []byte) bool {
-	return bytes.Equal(bytes.ReplaceAll(j1, []byte(`\ufffd`), []byte("\uFFFD")), j2) ||
-		bytes.Equal(bytes.ReplaceAll(j1, []byte(`\ufffd`), []byte("\xef\xbf\xbd")), j2)
 }
